@@ -79,6 +79,33 @@ def cli_case(case, env):
         if r[1] != want:
             viol("replace-matching-lines", "stdout %s, library says %s" % (esc(r[1][:120]), esc(want[:120])),
                  {"stdout": esc(r[1][:2000]), "expected": esc(want[:2000])})
+    # A2: --max-columns applies to what is printed, i.e. to the replaced line
+    if not crlf:
+        ncol = 6 + (len(case["input"]) + len(T)) % 12
+        r = run(["-N", "--max-columns", str(ncol), "-r", T])
+        if r is not None:
+            got = rec_lines(r[1], nl)
+            ok = len(got) == len(matching)
+            for g, l in zip(got, matching):
+                repl = unesc(l["replaced"])
+                if len(repl) <= ncol:
+                    ok = ok and g == repl
+                else:
+                    ok = ok and g.startswith(b"[Omitted long ")
+            if not ok:
+                viol("max-columns-replaced-lines",
+                     "--max-columns %d: stdout %s; library lines %s" % (ncol, esc(r[1][:160]), [l["replaced"][:40] for l in matching][:4]),
+                     {"stdout": esc(r[1][:2000]), "max_columns": ncol})
+        r = run(["-N", "-o", "--max-columns", str(ncol), "-r", T])
+        if r is not None:
+            exps = [unesc(e) for l in matching for e in l["expansions"]]
+            got = rec_lines(r[1], nl)
+            # every expansion that fits is printed as it is, in order
+            fit = [e for e in exps if len(e) <= ncol and b"\n" not in e]
+            shown = [g for g in got if not g.startswith(b"[Omitted long ")]
+            if all(b"\n" not in e for e in exps) and shown != fit:
+                viol("max-columns-only-matching", "--max-columns %d -o: stdout %s; library expansions %s" % (
+                    ncol, esc(r[1][:160]), [esc(e[:30]) for e in exps][:6]), {"stdout": esc(r[1][:2000]), "max_columns": ncol})
     # B: -o -r T
     r = run(["-N", "-o", "-r", T])
     if r is not None:
